@@ -87,7 +87,7 @@ func checkC18(p *core.Program, r *core.Report) {
 	fns := p.FuncsOf("hub")
 	det, syn := detachedSites(p, fns, mUpd)
 	for _, s := range det {
-		r.Fail(R1, "detached notification in "+p.FnName(goOrigin(p, s.Fn)), p.Pos(s.In.Pos()), "every state change notifies from its own goroutine after a fixed sleep: two changes in quick succession (or a later synchronous notification from Register/Unregister/Cancel) can be delivered in either order, so the application's last notification can show an older state than PairingDetailForSki reports", "change s1 -> goroutine g1 sleeps 500ms; change s2 -> goroutine g2 sleeps 500ms; g2 runs before g1 -> application sees s2 then s1")
+		r.Fail(R1, "detached notification in "+p.FnName(opRoot(p, goOrigin(p, s.Fn))), p.Pos(s.In.Pos()), "every state change notifies from its own goroutine after a fixed sleep: two changes in quick succession (or a later synchronous notification from Register/Unregister/Cancel) can be delivered in either order, so the application's last notification can show an older state than PairingDetailForSki reports", "change s1 -> goroutine g1 sleeps 500ms; change s2 -> goroutine g2 sleeps 500ms; g2 runs before g1 -> application sees s2 then s1")
 	}
 	for _, s := range syn {
 		r.OK(R1, "synchronous notification in "+p.FnName(s.Fn), p.Pos(s.In.Pos()), "issued in the caller's context")
@@ -320,6 +320,11 @@ func checkC18(p *core.Program, r *core.Report) {
 			r.Fail(R7, key, p.Pos(set.Pos()), "SetConnectionStateDetail does not store the pointer it is given (or the getter returns something else): the object a pending delayed notification holds is then not the hub's live record, so a later in-place change (cancel, unregister, register) is invisible to it and the superseded state is delivered last")
 		}
 	}
+	// ---- R8: a dead connection neither stays registered nor keeps reporting
+	const R8 = "C18.R8 ended-connections-stop-speaking"
+	r.Rule(R8, "every reported connection end removes the connection's registry entry on every path (shared with C11.R3: PairingDetailForSki prefers a registered connection, so a dead one that stays registered freezes the reported state), and whenever the close routine runs the handshake timer is stopped (shared with C04.R3: a leftover timer of a superseded connection later reports a timeout error for the SKI although the newer connection is completed)")
+	importRules(p, r, "C11", map[string]string{"C11.R3 registry-identity-atomic": R8}, nil)
+	importRules(p, r, "C04", map[string]string{"C04.R3 no-timer-left-armed": R8}, nil)
 	// ---- R6: a cancel that was announced as None really ends the pending handshake (shared with C10.R3 / C01.R5)
 	const R6 = "C18.R6 cancel-takes-effect"
 	r.Rule(R6, "the abort entry of the SHIP connection ends terminal from both waiting states: CancelPairingWithSKI announces None, so a connection that silently keeps waiting makes the hub report InProgress (and later Completed) after the application's last notification said None")
